@@ -570,6 +570,15 @@ impl<T: PartialOrd + Copy> Interval<T> {
     {
         self.applied(&f, &f)
     }
+
+    /// Exchange the direction of a one-sided interval (used when an order-reversing map was applied).
+    fn reversed(self) -> Self {
+        match self {
+            Interval::TwoSided(low, high) => Interval::TwoSided(low, high),
+            Interval::UpperOneSided(x) => Interval::LowerOneSided(x),
+            Interval::LowerOneSided(x) => Interval::UpperOneSided(x),
+        }
+    }
 }
 
 #[cfg(feature = "approx")]
@@ -650,19 +659,29 @@ where
     }
 }
 
-impl<F: Mul<F, Output = F> + PartialOrd + Copy> Mul<F> for Interval<F> {
+impl<F: Mul<F, Output = F> + PartialOrd + Copy + num_traits::Zero> Mul<F> for Interval<F> {
     type Output = Self;
 
     fn mul(self, rhs: F) -> Self::Output {
-        self.applied_both(|x| x * rhs)
+        let scaled = self.applied_both(|x| x * rhs);
+        if rhs < F::zero() {
+            scaled.reversed()
+        } else {
+            scaled
+        }
     }
 }
 
-impl<F: Div<F, Output = F> + PartialOrd + Copy> Div<F> for Interval<F> {
+impl<F: Div<F, Output = F> + PartialOrd + Copy + num_traits::Zero> Div<F> for Interval<F> {
     type Output = Self;
 
     fn div(self, rhs: F) -> Self::Output {
-        self.applied_both(|x| x / rhs)
+        let scaled = self.applied_both(|x| x / rhs);
+        if rhs < F::zero() {
+            scaled.reversed()
+        } else {
+            scaled
+        }
     }
 }
 
